@@ -22,6 +22,8 @@ pub const BOUNDARIES: [u64; 34] = [
 impl<'a> Gen<'a> {
     pub fn new(tape: &'a [u8]) -> Self { Gen { tape, pos: 0 } }
 
+    /// An independent reader over the same tape at the same position.
+    pub fn fork(&self) -> Gen<'a> { Gen { tape: self.tape, pos: self.pos } }
     pub fn exhausted(&self) -> bool { self.pos >= self.tape.len() }
     pub fn consumed(&self) -> usize { self.pos }
     pub fn rest(&mut self) -> &'a [u8] { let r = &self.tape[self.pos.min(self.tape.len()) ..]; self.pos = self.tape.len(); r }
